@@ -53,21 +53,65 @@ theorem strip_lit (neg : Bool) (i0 : Char) (irest fp : Str)
       rw [hl] at hc; simp at hc; subst hc
       exact (digit_of_digitVal (hfp _ (List.mem_of_getLast? hl))).1
 
-/-- `float()` of `[-]digits.digits` -/
-theorem parseDec_core (neg : Bool) (ip fp : Str) (a b : Nat)
+/-! ### literals without an exponent part -/
+
+theorem digit_noexp {c : Char} (h : (digitVal? c).isSome = true) : isExpChar c = false := by
+  unfold digitVal? at h
+  repeat' split at h
+  all_goals first | (subst_vars; decide) | simp at h
+
+theorem numChar_noexp {c : Char} (h : numChar c = true) : isExpChar c = false := by
+  unfold numChar at h
+  simp only [Bool.or_eq_true, decide_eq_true_eq] at h
+  rcases h with (h | h) | h
+  · exact digit_noexp h
+  · subst h; decide
+  · subst h; decide
+
+theorem mem_strip {s : Str} {c : Char} (h : c ∈ strip s) : c ∈ s := by
+  unfold strip rstrip lstrip at h
+  have h1 := List.mem_reverse.1 h
+  have h2 := (List.dropWhile_sublist _).subset h1
+  have h3 := List.mem_reverse.1 h2
+  exact (List.dropWhile_sublist _).subset h3
+
+theorem takeWhile_all (p : Char → Bool) (s : Str) (h : ∀ c ∈ s, p c = true) : s.takeWhile p = s ∧ s.dropWhile p = [] := by
+  induction s with
+  | nil => exact ⟨rfl, rfl⟩
+  | cons a r ih =>
+    have ha := h a (by simp)
+    have := ih (fun c hc => h c (by simp [hc]))
+    simp only [List.takeWhile, List.dropWhile, ha]
+    exact ⟨by rw [this.1], this.2⟩
+
+theorem takeWhile_stop (p : Char → Bool) (s : Str) (b : Char) (r : Str) (h : ∀ c ∈ s, p c = true) (hb : p b = false) :
+    (s ++ b :: r).takeWhile p = s ∧ (s ++ b :: r).dropWhile p = b :: r := by
+  induction s with
+  | nil => simp [hb]
+  | cons a t ih =>
+    have ha := h a (by simp)
+    have := ih (fun c hc => h c (by simp [hc]))
+    simp only [List.cons_append, List.takeWhile, List.dropWhile, ha]
+    exact ⟨by rw [this.1], this.2⟩
+
+/-- a literal without `e` / `E` is read by its mantissa part alone -/
+theorem parseDec_noexp (s0 : Str) (h : ∀ c ∈ s0, isExpChar c = false) : parseDec? s0 = parseMant? (strip s0) := by
+  unfold parseDec?
+  have := (takeWhile_all (fun c => !isExpChar c) (strip s0) (fun c hc => by simp [h c (mem_strip hc)])).2
+  simp only [this]
+
+/-- `[-]digits.digits` as a mantissa -/
+theorem parseMant_core (neg : Bool) (ip fp : Str) (a b : Nat)
     (hip : ∀ c ∈ ip, (digitVal? c).isSome = true) (hne : ip ≠ [])
-    (hfp : ∀ c ∈ fp, (digitVal? c).isSome = true)
     (pa : parseNatAux ip 0 = some a) (pb : parseNatAux fp 0 = some b) :
-    parseDec? ((if neg then ['-'] else []) ++ ip ++ ['.'] ++ fp)
+    parseMant? ((if neg then ['-'] else []) ++ ip ++ ['.'] ++ fp)
       = some (if neg then -((a * 10 ^ fp.length + b : Nat) : Int) else ((a * 10 ^ fp.length + b : Nat) : Int), fp.length) := by
   obtain ⟨i0, irest, rfl⟩ : ∃ i0 irest, ip = i0 :: irest := by
     cases ip with
     | nil => exact absurd rfl hne
     | cons x xs => exact ⟨x, xs, rfl⟩
   have hi0 := digit_of_digitVal (hip i0 (by simp))
-  have hstrip := strip_lit neg i0 irest fp (hip i0 (by simp)) hfp
-  unfold parseDec?
-  rw [hstrip]
+  unfold parseMant?
   have htw := takeWhile_ne_dot (i0 :: irest) fp hip
   cases neg with
   | false =>
@@ -86,6 +130,62 @@ theorem parseDec_core (neg : Bool) (ip fp : Str) (a b : Nat)
     simp only [beq_self_eq_true, Bool.true_or, ↓reduceIte, this]
     rw [htw.1, htw.2]
     simp [pa, pb]
+
+/-- `[-]digits` (no point) as a mantissa -/
+theorem parseMant_nodot (neg : Bool) (ip : Str) (a : Nat)
+    (hip : ∀ c ∈ ip, (digitVal? c).isSome = true) (hne : ip ≠ []) (pa : parseNatAux ip 0 = some a) :
+    parseMant? ((if neg then ['-'] else []) ++ ip) = some (if neg then -(a : Int) else (a : Int), 0) := by
+  obtain ⟨i0, irest, rfl⟩ : ∃ i0 irest, ip = i0 :: irest := by
+    cases ip with
+    | nil => exact absurd rfl hne
+    | cons x xs => exact ⟨x, xs, rfl⟩
+  have hi0 := digit_of_digitVal (hip i0 (by simp))
+  unfold parseMant?
+  have htw := takeWhile_all (fun c => decide (c ≠ '.')) (i0 :: irest)
+    (fun c hc => by simp [(digit_of_digitVal (hip c hc)).2.1])
+  cases neg with
+  | false =>
+    have h1 : (i0 :: irest).head? = some i0 := rfl
+    simp only [Bool.false_eq_true, ↓reduceIte, List.nil_append, h1]
+    have e1 : (some i0 == some '-') = false := by simp [hi0.2.2.1]
+    have e2 : (some i0 == some '+') = false := by simp [hi0.2.2.2.1]
+    simp only [e1, e2, Bool.or_self, Bool.false_eq_true, ↓reduceIte]
+    rw [htw.1, htw.2, pa, List.drop_nil, show parseNatAux ([] : Str) 0 = some 0 from rfl]
+    simp
+  | true =>
+    have h1 : (['-'] ++ (i0 :: irest)).head? = some '-' := rfl
+    simp only [↓reduceIte, h1]
+    have : (['-'] ++ (i0 :: irest)).drop 1 = i0 :: irest := by simp
+    simp only [beq_self_eq_true, Bool.true_or, ↓reduceIte, this]
+    rw [htw.1, htw.2, pa, List.drop_nil, show parseNatAux ([] : Str) 0 = some 0 from rfl]
+    simp
+
+theorem lit_noexp (neg : Bool) (ip fp : Str) (hip : ∀ c ∈ ip, (digitVal? c).isSome = true)
+    (hfp : ∀ c ∈ fp, (digitVal? c).isSome = true) :
+    ∀ c ∈ (if neg then ['-'] else []) ++ ip ++ ['.'] ++ fp, isExpChar c = false := by
+  intro c hc
+  simp only [List.mem_append, List.mem_singleton] at hc
+  rcases hc with ((hc | hc) | hc) | hc
+  · have : c = '-' := by cases neg <;> simp at hc; exact hc
+    subst this; decide
+  · exact digit_noexp (hip c hc)
+  · subst hc; decide
+  · exact digit_noexp (hfp c hc)
+
+/-- `float()` of `[-]digits.digits` -/
+theorem parseDec_core (neg : Bool) (ip fp : Str) (a b : Nat)
+    (hip : ∀ c ∈ ip, (digitVal? c).isSome = true) (hne : ip ≠ [])
+    (hfp : ∀ c ∈ fp, (digitVal? c).isSome = true)
+    (pa : parseNatAux ip 0 = some a) (pb : parseNatAux fp 0 = some b) :
+    parseDec? ((if neg then ['-'] else []) ++ ip ++ ['.'] ++ fp)
+      = some (if neg then -((a * 10 ^ fp.length + b : Nat) : Int) else ((a * 10 ^ fp.length + b : Nat) : Int), fp.length) := by
+  rw [parseDec_noexp _ (lit_noexp neg ip fp hip hfp)]
+  obtain ⟨i0, irest, rfl⟩ : ∃ i0 irest, ip = i0 :: irest := by
+    cases ip with
+    | nil => exact absurd rfl hne
+    | cons x xs => exact ⟨x, xs, rfl⟩
+  rw [strip_lit neg i0 irest fp (hip i0 (by simp)) hfp]
+  exact parseMant_core neg (i0 :: irest) fp a b hip hne pa pb
 
 theorem natStr_digits (n : Nat) : ∀ c ∈ natStr n, (digitVal? c).isSome = true := padDigits_digits _ _
 
@@ -121,14 +221,17 @@ theorem renderFixedS_eq (w d : Nat) (v : SNum) : renderFixedS w d v = fixedCoreS
   rw [this, strip_fixedCoreS]
 
 /-- `float()` ignores the padding of `"{:w.df}"` -/
+theorem parseDec_strip (s : Str) (h : strip (strip s) = strip s) : parseDec? (strip s) = parseDec? s := by
+  unfold parseDec?
+  rw [h]
+
 theorem parseDec_fixedWS (w d : Nat) (v : SNum) : parseDec? (fixedWS w d v) = some (v.toInt, d) := by
   have h1 : parseDec? (fixedWS w d v) = parseDec? (renderFixedS w d v) := by
-    unfold parseDec? renderFixedS
-    have : strip (strip (fixedWS w d v)) = strip (fixedWS w d v) := by
-      have := renderFixedS_eq w d v
-      unfold renderFixedS at this
-      rw [this, strip_fixedCoreS]
-    rw [this]
+    unfold renderFixedS
+    rw [parseDec_strip]
+    have := renderFixedS_eq w d v
+    unfold renderFixedS at this
+    rw [this, strip_fixedCoreS]
   rw [h1, renderFixedS_eq, parseDec_fixedCoreS]
 
 /-- all characters of a rendered number are digits, '-' or '.' -/
